@@ -489,7 +489,10 @@ func OneShot(kind string, script string, timeoutSec int) (SatResult, string) {
 	f.WriteString(script + "(check-sat)\n")
 	f.Close()
 	t0 := time.Now()
-	out, _ := exec.Command(bin, args...).CombinedOutput()
+	// hard deadline: cvc5 does not always honour --tlimit
+	octx, cancel := context.WithTimeout(context.Background(), time.Duration(timeoutSec+5)*time.Second)
+	defer cancel()
+	out, _ := exec.CommandContext(octx, bin, args...).CombinedOutput()
 	atomic.AddInt64(&globalStats.Nanos, time.Since(t0).Nanoseconds())
 	atomic.AddInt64(&globalStats.Queries, 1)
 	o := string(out)
